@@ -90,9 +90,9 @@ Definition ext0_field (a : ext0raw) (kv : bytes * bval) : option ext0raw :=
   if key_is k "v" then
     match as_str v with Some s => Some {| r_version := s; r_ipv4 := r_ipv4 a; r_ipv6 := r_ipv6 a; r_port := r_port a; r_reqq := r_reqq a; r_msize := r_msize a; r_messages := r_messages a; r_uo := r_uo a; r_enc := r_enc a |} | None => None end
   else if key_is k "ipv4" then
-    match as_bytes_field v with Some s => Some (if is_empty_list v then a else {| r_version := r_version a; r_ipv4 := s; r_ipv6 := r_ipv6 a; r_port := r_port a; r_reqq := r_reqq a; r_msize := r_msize a; r_messages := r_messages a; r_uo := r_uo a; r_enc := r_enc a |}) | None => None end
+    match as_bytes_field v with Some s => Some {| r_version := r_version a; r_ipv4 := (if is_list v then overlay s (r_ipv4 a) else s); r_ipv6 := r_ipv6 a; r_port := r_port a; r_reqq := r_reqq a; r_msize := r_msize a; r_messages := r_messages a; r_uo := r_uo a; r_enc := r_enc a |} | None => None end
   else if key_is k "ipv6" then
-    match as_bytes_field v with Some s => Some (if is_empty_list v then a else {| r_version := r_version a; r_ipv4 := r_ipv4 a; r_ipv6 := s; r_port := r_port a; r_reqq := r_reqq a; r_msize := r_msize a; r_messages := r_messages a; r_uo := r_uo a; r_enc := r_enc a |}) | None => None end
+    match as_bytes_field v with Some s => Some {| r_version := r_version a; r_ipv4 := r_ipv4 a; r_ipv6 := (if is_list v then overlay s (r_ipv6 a) else s); r_port := r_port a; r_reqq := r_reqq a; r_msize := r_msize a; r_messages := r_messages a; r_uo := r_uo a; r_enc := r_enc a |} | None => None end
   else if key_is k "p" then
     match as_uint 16 v with Some n => Some {| r_version := r_version a; r_ipv4 := r_ipv4 a; r_ipv6 := r_ipv6 a; r_port := n; r_reqq := r_reqq a; r_msize := r_msize a; r_messages := r_messages a; r_uo := r_uo a; r_enc := r_enc a |} | None => None end
   else if key_is k "reqq" then
@@ -161,17 +161,17 @@ Definition pexraw_zero := {| x_added := None; x_addedf := []; x_added6 := None; 
 Definition pex_field (a : pexraw) (kv : bytes * bval) : option pexraw :=
   let (k, v) := kv in
   if key_is k "added" then
-    match as_bytes_field v with Some s => Some (if is_empty_list v then a else {| x_added := Some s; x_addedf := x_addedf a; x_added6 := x_added6 a; x_added6f := x_added6f a; x_dropped := x_dropped a; x_dropped6 := x_dropped6 a |}) | None => None end
+    match as_bytes_field v with Some s => Some {| x_added := Some (if is_list v then overlay s (match x_added a with Some o => o | None => [] end) else s); x_addedf := x_addedf a; x_added6 := x_added6 a; x_added6f := x_added6f a; x_dropped := x_dropped a; x_dropped6 := x_dropped6 a |} | None => None end
   else if key_is k "added.f" then
-    match as_bytes_field v with Some s => Some (if is_empty_list v then a else {| x_added := x_added a; x_addedf := s; x_added6 := x_added6 a; x_added6f := x_added6f a; x_dropped := x_dropped a; x_dropped6 := x_dropped6 a |}) | None => None end
+    match as_bytes_field v with Some s => Some {| x_added := x_added a; x_addedf := (if is_list v then overlay s (x_addedf a) else s); x_added6 := x_added6 a; x_added6f := x_added6f a; x_dropped := x_dropped a; x_dropped6 := x_dropped6 a |} | None => None end
   else if key_is k "added6" then
-    match as_bytes_field v with Some s => Some (if is_empty_list v then a else {| x_added := x_added a; x_addedf := x_addedf a; x_added6 := Some s; x_added6f := x_added6f a; x_dropped := x_dropped a; x_dropped6 := x_dropped6 a |}) | None => None end
+    match as_bytes_field v with Some s => Some {| x_added := x_added a; x_addedf := x_addedf a; x_added6 := Some (if is_list v then overlay s (match x_added6 a with Some o => o | None => [] end) else s); x_added6f := x_added6f a; x_dropped := x_dropped a; x_dropped6 := x_dropped6 a |} | None => None end
   else if key_is k "added6.f" then
-    match as_bytes_field v with Some s => Some (if is_empty_list v then a else {| x_added := x_added a; x_addedf := x_addedf a; x_added6 := x_added6 a; x_added6f := s; x_dropped := x_dropped a; x_dropped6 := x_dropped6 a |}) | None => None end
+    match as_bytes_field v with Some s => Some {| x_added := x_added a; x_addedf := x_addedf a; x_added6 := x_added6 a; x_added6f := (if is_list v then overlay s (x_added6f a) else s); x_dropped := x_dropped a; x_dropped6 := x_dropped6 a |} | None => None end
   else if key_is k "dropped" then
-    match as_bytes_field v with Some s => Some (if is_empty_list v then a else {| x_added := x_added a; x_addedf := x_addedf a; x_added6 := x_added6 a; x_added6f := x_added6f a; x_dropped := Some s; x_dropped6 := x_dropped6 a |}) | None => None end
+    match as_bytes_field v with Some s => Some {| x_added := x_added a; x_addedf := x_addedf a; x_added6 := x_added6 a; x_added6f := x_added6f a; x_dropped := Some (if is_list v then overlay s (match x_dropped a with Some o => o | None => [] end) else s); x_dropped6 := x_dropped6 a |} | None => None end
   else if key_is k "dropped6" then
-    match as_bytes_field v with Some s => Some (if is_empty_list v then a else {| x_added := x_added a; x_addedf := x_addedf a; x_added6 := x_added6 a; x_added6f := x_added6f a; x_dropped := x_dropped a; x_dropped6 := Some s |}) | None => None end
+    match as_bytes_field v with Some s => Some {| x_added := x_added a; x_addedf := x_addedf a; x_added6 := x_added6 a; x_added6f := x_added6f a; x_dropped := x_dropped a; x_dropped6 := Some (if is_list v then overlay s (match x_dropped6 a with Some o => o | None => [] end) else s) |} | None => None end
   else if valid_iface v then Some a else None.
 
 Definition decode_pex (v : bval) : option (list peer * list peer) :=
